@@ -468,6 +468,23 @@ class ListBase(Base):
                 items[0].text = "x"
             yield self.mk_items(items, sp, rng.random() < 0.7, "ast-leadnl" if leading_nl else "ast")
 
+    def multi_inline(self, rng, n):
+        """several regions starting (or ending) on one line, some of them running over the following lines"""
+        sp = gen.Spelling()
+        for i in range(n):
+            lines = []
+            for _ in range(rng.randint(1, 4)):
+                parts = [rng.choice(["", "a", "\tb ", "é "])]
+                for _ in range(rng.choice([0, 1, 2, 2, 3])):
+                    e = gen.El(rng.choice(["tl", "rm"]), rng.random() < 0.8)
+                    body = rng.choice(["x", "", "y\nz", "é", "\n", "p\n\tq\n"])
+                    parts.append(sp.open_tag(e) + body + sp.close_tag(e) + rng.choice(["", "c", " ", "\t"]))
+                lines.append("".join(parts))
+            src = "\n".join(lines) + ("\n" if rng.random() < 0.7 else "")
+            if src.startswith("\n"):
+                src = "x" + src
+            yield self.mk(src, "<", ">", Cfg(), "multi-inline")
+
     spec_name = None      # "C15" / "C17": Lean predicate evaluated on the implementation's regions
     spec_field = 0        # 0 = ready markers, 1 = all markers of the trace reply
 
@@ -534,6 +551,7 @@ class C15(ListBase):
 
     def cases(self, rng, tier):
         yield from self.docs(rng, tier, quick(tier, 4000, 150000))
+        yield from self.multi_inline(rng, quick(tier, 600, 20000))
 
     def oracle(self, case, impl, spec):
         o, err = self.unpack(impl)
@@ -605,6 +623,7 @@ class C16(ListBase):
     def cases(self, rng, tier):
         yield from self.docs(rng, tier, quick(tier, 3000, 120000))
         yield from self.docs(rng, tier, quick(tier, 600, 20000), leading_nl=True)
+        yield from self.multi_inline(rng, quick(tier, 500, 20000))
 
     def oracle(self, case, impl, spec):
         o, err = self.unpack(impl)
@@ -661,6 +680,7 @@ class C17(ListBase):
             if items and isinstance(items[0], gen.Line) and items[0].inline is None and items[0].text == "":
                 items[0].text = "x"
             yield self.mk_items(items, gen.Spelling(), rng.random() < 0.7, "ast")
+        yield from self.multi_inline(rng, quick(tier, 500, 20000))
 
     def expected(self, extents):
         ready, pend = [], []
@@ -910,14 +930,36 @@ class C20(Base):
 
     DEF = {"ds": "<!-- <", "de": "> -->", "tl": "time-limited", "rm": "removal-marker", "off": "+00:00"}
 
+    @staticmethod
+    def file_text(m):
+        """the bytes of the target config file: names in the chosen line-ending style"""
+        names = m["file"]
+        style = m.get("file_style", "lf")
+        if style == "crlf":
+            return "".join(x + "\r\n" for x in names)
+        if style == "no-final-newline":
+            return "\n".join(names)
+        if style == "blank-line":
+            return "".join(x + "\n" for x in names[:1]) + "\n" + "".join(x + "\n" for x in names[1:])
+        return "".join(x + "\n" for x in names)
+
+    @staticmethod
+    def ref_lines(text):
+        """BufRead::lines(): split at LF, one trailing CR dropped, no empty last line (independent of the model)"""
+        parts = text.split("\n")
+        if parts and parts[-1] == "":
+            parts.pop()
+        return [x[:-1] if x.endswith("\r") else x for x in parts]
+
     def mk_case(self, m, label):
-        cfg = Cfg(tl=m["tl"], rm=m["rm"], now=m["now"], off=m["off"], targets=tuple(sorted(set(m["flags"]) | set(m["file"] or []))))
+        file_targets = self.ref_lines(self.file_text(m)) if m["file"] is not None else []
+        cfg = Cfg(tl=m["tl"], rm=m["rm"], now=m["now"], off=m["off"], targets=tuple(sorted(set(m["flags"]) | set(file_targets))))
         op = {"clean": "clean", "list": "list:", "list_all": "list_all:"}[m["mode"]]
         if op != "clean":
             op += "json" if m["json"] else "pretty"
         # the model of main(): flags only as --removal-marker-target-name, the config file as a file
         mcfg = Cfg(tl=m["tl"], rm=m["rm"], now=m["now"], off=m["off"], targets=tuple(m["flags"]))
-        filehex = "-" if m["file"] is None else (hx("".join(x + "\n" for x in m["file"])) or "")
+        filehex = "-" if m["file"] is None else (hx(self.file_text(m)) or "")
         cli_req = req("cli", m["src"], m["ds"], m["de"], mcfg,
                       extra=[filehex if filehex != "" else "", "1" if m["mode"] == "list" else "0",
                              "1" if (m["mode"] == "list_all" or m.get("list_flag_both")) else "0", "1" if m["json"] else "0"])
@@ -934,15 +976,16 @@ class C20(Base):
             custom = rng.random() < 0.6
             ds, de = rng.choice(gen.SAFE_DELIMS) if custom and rng.random() < 0.5 else (self.DEF["ds"], self.DEF["de"])
             tl, rm = rng.choice(gen.TAG_NAMES) if custom and rng.random() < 0.5 else (self.DEF["tl"], self.DEF["rm"])
-            g = gen.DocGen(rng, depth=2, p_inline=0.2, names=["a", "b", "vec![]", "c d"], p_ready=0.7)
+            g = gen.DocGen(rng, depth=2, p_inline=0.2, names=["a", "b", "vec![]", "c d", "", "a\r", "b "], p_ready=0.7)
             items = g.doc()
             src = gen.render(items, gen.Spelling(ds, de, tl, rm), final_nl=rng.random() < 0.8)
             mode = rng.choice(["clean", "clean", "list", "list_all", "both"])
-            names = ["a", "b", "vec![]", "c d", "x"]
-            flags = [rng.choice(names) for _ in range(rng.choice([0, 0, 1, 2]))]
-            filen = None if rng.random() < 0.5 else [rng.choice(names) for _ in range(rng.choice([0, 1, 2]))]
+            names = ["a", "b", "vec![]", "c d", "x", "b "]
+            flags = [rng.choice(names + [""]) for _ in range(rng.choice([0, 0, 1, 2]))]
+            filen = None if rng.random() < 0.4 else [rng.choice(names) for _ in range(rng.choice([0, 1, 2, 3]))]
             m = {"src": src, "ds": ds, "de": de, "tl": tl, "rm": rm, "off": rng.choice(["+00:00", "+09:00", "-0800"]) if custom else self.DEF["off"],
                  "now": rng.choice([gen.NOW, 946684800 - 1, 946684800, 946684800 + 32400, 946684800 - 28800]), "flags": flags, "file": filen,
+                 "file_style": rng.choice(["lf", "lf", "crlf", "no-final-newline", "blank-line"]),
                  "mode": mode if mode != "both" else "list", "list_flag_both": mode == "both", "json": rng.random() < 0.4}
             yield self.mk_case(m, "cli")
 
@@ -972,7 +1015,7 @@ class C20(Base):
                 args += ["--removal-marker-target-name=" + f]
             if m["file"] is not None:
                 p = os.path.join(td, "targets.txt")
-                open(p, "w").write("".join(x + "\n" for x in m["file"]))
+                open(p, "w", newline="").write(self.file_text(m))
                 args += ["--removal-marker-target-config", p]
             if m["mode"] == "list":
                 args += ["--list"]
